@@ -84,5 +84,35 @@ theorem code_incomplete_condition :
         Gen.agent_incomplete false k cci pending = reportIncomplete none cci pending :=
   @_root_.Drummer.bridge_agentIncomplete
 
+theorem join_request_starts_whatever_the_data :
+    ∀ (hasInfo : Bool), instantiate true false hasInfo = InstOutcome.start true :=
+  @_root_.Drummer.instantiate_join_starts
+
+theorem restore_request_starts_iff_data :
+    ∀ (hasInfo : Bool),
+      InstOutcome.started (instantiate false true hasInfo) = hasInfo ∧
+        (hasInfo = true → instantiate false true hasInfo = InstOutcome.start false) :=
+  @_root_.Drummer.instantiate_restore_iff_data
+
+theorem launch_request_starts_fresh_replica :
+    instantiate false false false = InstOutcome.start false :=
+  @_root_.Drummer.instantiate_launch_fresh
+
+theorem fleet_model_follows_agent_table :
+    ∀ (l : Loop) (h : Host) (r : Request),
+      Host.run? h r.shardId = none →
+        (r.join = false → r.restore = false → Option.isSome (Loop.group? l r.shardId) = false) →
+          instantiate r.join r.restore (Option.isSome (Host.dataGet h r.shardId r.instantiateReplicaId)) ≠
+              InstOutcome.panic →
+            if
+                InstOutcome.started
+                    (instantiate r.join r.restore (Option.isSome (Host.dataGet h r.shardId r.instantiateReplicaId))) =
+                  true then
+              ∃ l' h',
+                Loop.execCreate l h r = Loop.setHost l' h' ∧
+                  Option.map (fun x => x.id) (Host.run? h' r.shardId) = some r.instantiateReplicaId
+            else Loop.execCreate l h r = l :=
+  @_root_.Drummer.execCreate_follows_table
+
 end C18
 end Drummer
